@@ -52,7 +52,9 @@ class Prop(PropBase):
             'pypyr.steps.py block of 1-6 statements; programs are type-directed random terms of the '
             'mini-Python grammar (names, literals, + == <, list literals, immediately-called lambdas, '
             'comprehensions with 1-3 for clauses, := at module level / in lambdas / in comprehensions, '
-            'calls, attribute reads, .append; assign, +=, import, from-import, def, class, save, del), '
+            'calls, attribute reads, .append; assign, +=, import a / import a.b.c / import a.b.c as m / from a.b '
+            'import c [as d] over a throw-away package written per case and os.path, urllib.parse, '
+            'xml.dom.minidom; def, class, save, del), '
             '6% deliberately ill-typed or unbound. 26 hand-written seed cases run first. '
             'non-trivial = the program reads at least one context key and at least one result is a value')
     trusted_base = [
@@ -63,8 +65,11 @@ class Prop(PropBase):
         'the theorems are parameterised by pypyr\'s own part: per evaluation a namespace object {dict '
         'part: __builtins__; maps: [throw-away scratch; context; imports]} (repair e6daded), exec '
         'globals = shallow copy of context + __builtins__ + save',
+        'the import system (a submodule is an attribute of its package once imported; the initial '
+        'sys.modules of the worker process is an input of the model) is MODELLED, validated by the '
+        'correspondence run and by the plain exec/eval oracle',
         'values: int/bool/str/None, list objects with identity, module-level def/class objects, five '
-        'builtins and two modules; anything else (strings as iterables, list ordering, instantiation, '
+        'builtins and a table of modules; anything else (strings as iterables, list ordering, instantiation, '
         'id()) is outside the model (verdict 2, counted)',
     ]
 
@@ -88,24 +93,28 @@ class Prop(PropBase):
         return obs
 
     # ------------------------------------------------------------------ model side
-    def model_term(self, case):
+    def model_term(self, case, loaded0=()):
         n0 = L.coq_nat(len(case['heap']))
         heap = L.coq_heap(case['heap'])
         ctx = L.coq_ns(case_ctx(case))
+        env = f'{L.coq_mods(L.case_mods(case))} std_builtins {L.coq_list([L.coq_str(m) for m in loaded0])}'
         if case['kind'] == 'eval':
             imports = L.coq_list([L.coq_stmt(s) for s in case.get('imports', [])])
             exprs = L.coq_list([L.coq_expr(e) for e in case['exprs']])
-            return f'(eval_case {COQ_ENV} {n0} {heap} {ctx} {imports} {exprs})'
+            return f'(eval_case_ld {env} {n0} {heap} {ctx} {imports} {exprs})'
         block = L.coq_list([L.coq_stmt(s) for s in case['block']])
-        return f'(exec_case {COQ_ENV} {n0} {heap} {ctx} {block})'
+        return f'(exec_case_ld {env} {n0} {heap} {ctx} {block})'
 
     def coq_check(self, case, obs):
         if obs.get('too_big'):
             return '2%nat'      # a list grew beyond what is worth printing: outside the compared fragment
-        return f'(check_obs {self.model_term(case)} {L.coq_obs(obs)})'
+        return f'(check_obs {self.model_term(case, obs.get("loaded0", ()))} {L.coq_obs(obs)})'
 
     def coq_model_obs(self, case):
-        return self.model_term(case)
+        # replays: the initial sys.modules is whatever this process has; recompute it the way run_impl does
+        import sys
+        return self.model_term(case, [m for m, _ in L.case_mods(case) if m in sys.modules
+                                      and not (case.get('pkg') and m.startswith(case['pkg']))])
 
     # ------------------------------------------------------------------ monitors (statement only)
     def monitor(self, case, obs):
@@ -121,7 +130,11 @@ class Prop(PropBase):
                 a, b = L.module_level_walrus(e)
                 top |= a
                 in_comp |= b
-            imported = {G.import_binding(s)[0] for s in case.get('imports', [])}
+            imported = {L.stmt_binding_name(s) for s in case.get('imports', [])}
+            if obs.get('pyimport_error') and not obs.get('oracle_import_error'):
+                out.append(fail('imports-readable', f'pyimport of {R.import_source(case["imports"])!r} raised '
+                                                    f'{obs["pyimport_error"]}; plain Python imports it fine',
+                                'pyimport-raises'))
             case_keys = {k for k, _ in case['ctx']}
             for k in kb:
                 if k not in case_keys:
@@ -152,7 +165,10 @@ class Prop(PropBase):
                 a, b = L.module_level_walrus(case['exprs'][i])
                 calls_id = any(x[0] == 'call' and x[1] == ['name', 'id'] for x in L.walk(case['exprs'][i]))
                 if mine != want and not calls_id and not b:      # id() of two copies differs by nature
-                    fp = 'walrus-leaks-into-context' if seen_top else 'differs-from-plain-eval'
+                    reads_import = any(x[0] == 'name' and x[1] in imported and x[1] not in case_keys
+                                       for x in L.walk(case['exprs'][i]))
+                    fp = ('walrus-leaks-into-context' if seen_top
+                          else 'imported-name-not-readable' if reads_import else 'differs-from-plain-eval')
                     out.append(fail('reads-as-plain-variables',
                                     f'{obs["src"][i]!r} gave {mine!r}; plain eval over dict(context) gives {want!r}', fp))
                 seen_top = seen_top or bool(a)
@@ -308,9 +324,18 @@ class Prop(PropBase):
                     feats.add('append')
         if any(k in G.BUILTINS for k, _ in case['ctx']):
             feats.add('ctx-shadows-builtin')
+        for st in (case.get('imports') or []) + [x for x in case.get('block', []) if x[0] in ('import', 'importas', 'from')]:
+            if st[0] == 'import' and '.' in st[1]:
+                feats.add('import:dotted-unaliased')
+            elif st[0] == 'importas':
+                feats.add('import:dotted-aliased' if '.' in st[1] else 'import:aliased')
+            elif st[0] == 'from' and '.' in st[1]:
+                feats.add('import:from-dotted')
+        if case.get('pkg'):
+            feats.add('throwaway-package')
         if case.get('imports'):
             feats.add('pyimport')
-            if any(G.import_binding(s)[0] in {k for k, _ in case['ctx']} for s in case['imports']):
+            if any(L.stmt_binding_name(s) in {k for k, _ in case['ctx']} for s in case['imports']):
                 feats.add('ctx-shadows-import')
         if case['kind'] == 'exec':
             for s in case['block']:
